@@ -107,6 +107,10 @@ func rangeSubject(d *declInfo, s ast.Stmt) string {
 		}
 		if ce, ok := x.(*ast.CallExpr); ok {
 			if sel, ok := ce.Fun.(*ast.SelectorExpr); ok {
+				// a generated getter ranges the same collection as the field it wraps
+				if len(ce.Args) == 0 && strings.HasPrefix(sel.Sel.Name, "Get") && len(sel.Sel.Name) > 3 {
+					return strings.TrimPrefix(sel.Sel.Name, "Get")
+				}
 				return sel.Sel.Name + "()"
 			}
 		}
@@ -613,6 +617,32 @@ func (c *Ctx) classifyAtom0(d *declInfo, li *loopInfo, ifs *ast.IfStmt, a ast.Ex
 				}
 			}
 			if v.isStr() && v.str() == "" {
+				// a local that holds a field's value (or a constant default): empty(F)
+				if id, ok := x.(*ast.Ident); ok {
+					target := objOf(d.pkg, id)
+					var flds []string
+					other := false
+					ast.Inspect(d.fd.Body, func(n ast.Node) bool {
+						as, ok := n.(*ast.AssignStmt)
+						if !ok || len(as.Lhs) != len(as.Rhs) {
+							return true
+						}
+						for i, l := range as.Lhs {
+							if objOf(d.pkg, l) != target || target == nil {
+								continue
+							}
+							if f := selectorField(d.pkg, as.Rhs[i]); f != nil {
+								flds = append(flds, f.Name())
+							} else if _, isC := constOf(d.pkg, as.Rhs[i]); !isC {
+								other = true
+							}
+						}
+						return true
+					})
+					if len(flds) == 1 && !other {
+						return "empty(" + flds[0] + ")", text
+					}
+				}
 				return "empty-value", text
 			}
 			if f := selectorField(d.pkg, x); f != nil {
@@ -719,9 +749,15 @@ func (c *Ctx) loopTotality(rule string, ds []*declInfo, table map[string]loopPol
 					continue
 				}
 				bad = true
-				key := strings.Join(classes, "&")
-				if key == "" {
-					key = "unconditional"
+				// name the path by the decision adjacent to the skip (or the forbidden one)
+				key := "unconditional"
+				if len(classes) > 0 {
+					key = classes[len(classes)-1]
+				}
+				for _, cl := range classes {
+					if cl == "placement-dependent" {
+						key = cl
+					}
 				}
 				if reported[key] {
 					continue
